@@ -77,6 +77,10 @@ def run(chk: Check) -> None:
     inputs_encoded_by_deepcopy(chk, 'PROV-read-only')
     from .common import nothing_registered_before_validation
     nothing_registered_before_validation(chk, 'GUARD-no-process-on-reject')
+    # the spec the inputs are checked against is the declared one: declaring a port below an existing namespace keeps that namespace (its validator, its dynamic type,
+    # its populate_defaults flag) instead of replacing it by a fresh one (shared with C15)
+    from .c15 import namespace_created_only_if_absent
+    namespace_created_only_if_absent(chk, 'PROV-declared-spec')
 
 
 # ---------------------------------------------------------------------- 1. no validation verdict is dropped
